@@ -3,6 +3,7 @@ package main
 import (
 	"flag"
 	"fmt"
+	"go/types"
 	"os"
 	"path/filepath"
 	"sort"
@@ -20,6 +21,7 @@ type Loaded struct {
 	byKey   map[string]*ssa.Function
 	generic map[string][]*ssa.Function
 	loadS   float64
+	types   map[string]*types.Package // every loaded package (including dependencies) by short path
 }
 
 func loadRepo(repo string) (*Loaded, error) {
@@ -31,7 +33,11 @@ func loadRepo(repo string) (*Loaded, error) {
 		return nil, err
 	}
 	var errs []string
+	tmap := map[string]*types.Package{}
 	packages.Visit(pkgs, nil, func(p *packages.Package) {
+		if p.Types != nil {
+			tmap[shortPkg(p.PkgPath)] = p.Types
+		}
 		for _, e := range p.Errors {
 			if strings.HasPrefix(p.PkgPath, modPrefix) {
 				errs = append(errs, e.Error())
@@ -43,7 +49,7 @@ func loadRepo(repo string) (*Loaded, error) {
 	}
 	prog, _ := ssautil.AllPackages(pkgs, ssa.InstantiateGenerics|ssa.GlobalDebug)
 	prog.Build()
-	ld := &Loaded{prog: prog, pkgs: pkgs, byKey: map[string]*ssa.Function{}, generic: map[string][]*ssa.Function{}}
+	ld := &Loaded{prog: prog, pkgs: pkgs, byKey: map[string]*ssa.Function{}, generic: map[string][]*ssa.Function{}, types: tmap}
 	for fn := range ssautil.AllFunctions(prog) {
 		if fn.Pkg == nil && fn.Object() == nil {
 			continue
@@ -78,7 +84,10 @@ func hasTag(tags []string, p string) bool {
 }
 
 func contractHasTag(c *Contract, p string) bool {
-	if hasTag(c.Safety, p) || hasTag(c.AssignTags, p) {
+	if hasTag(c.Safety, p) || hasTag(c.AssignTags, p) || hasTag(c.NoGlobals, p) {
+		return true
+	}
+	if c.Delegates != nil && hasTag(c.Delegates.Tags, p) {
 		return true
 	}
 	for _, cl := range c.Requires {
